@@ -594,3 +594,94 @@ func conversionRolesRule(c *an.Ctx, rule string, dirs ...string) {
 	}
 	c.Floor(rule, n, 10, "conversion-data call sites in the templates")
 }
+
+// metaSelectionAgreement: a Meta key can hold several values (a later
+// declaration, or a view-level override, appends to the list); the value in
+// force is the last one, which is what Meta.Last returns. Every reader of one of
+// the given keys must select the value the same way: a reader that takes the
+// first value (Meta[k][0], or v := Meta[k] … v[0]) disagrees with the
+// Last-readers as soon as a key is declared twice - the validator checks one
+// view while the renderer uses another, the proto emitter numbers fields with
+// one tag while the validator checked another.
+func metaSelectionAgreement(c *an.Ctx, rule string, keys ...string) {
+	want := map[string]bool{}
+	for _, k := range keys {
+		want[k] = true
+	}
+	type site struct {
+		pos  token.Pos
+		fn   string
+		form string
+	}
+	sites := map[string][]site{}
+	keyOf := func(info *types.Info, e ast.Expr) string {
+		if s, ok := an.ConstString(info, e); ok {
+			return s
+		}
+		return ""
+	}
+	isMeta := func(info *types.Info, e ast.Expr) bool {
+		t := info.TypeOf(e)
+		return t != nil && strings.HasSuffix(t.String(), "/expr.MetaExpr")
+	}
+	for _, d := range c.ModuleDirs() {
+		for _, f := range c.AllFuncs(d) {
+			info := f.Pkg.TypesInfo
+			vars := map[types.Object]string{} // v := X.Meta[k]
+			ast.Inspect(f.Decl.Body, func(nd ast.Node) bool {
+				switch x := nd.(type) {
+				case *ast.CallExpr:
+					if se, ok := x.Fun.(*ast.SelectorExpr); ok && se.Sel.Name == "Last" && len(x.Args) == 1 && isMeta(info, se.X) {
+						if k := keyOf(info, x.Args[0]); want[k] {
+							sites[k] = append(sites[k], site{x.Pos(), f.Name, "last"})
+						}
+					}
+				case *ast.AssignStmt:
+					if len(x.Rhs) == 1 {
+						if ix, ok := an.Unparen(x.Rhs[0]).(*ast.IndexExpr); ok && isMeta(info, ix.X) {
+							if k := keyOf(info, ix.Index); want[k] {
+								if o := an.ObjOf(info, x.Lhs[0]); o != nil {
+									vars[o] = k
+								}
+							}
+						}
+					}
+				case *ast.IndexExpr:
+					if v, isConst := an.ConstInt(info, x.Index); isConst && v == 0 {
+						if inner, ok := an.Unparen(x.X).(*ast.IndexExpr); ok && isMeta(info, inner.X) {
+							if k := keyOf(info, inner.Index); want[k] {
+								sites[k] = append(sites[k], site{x.Pos(), f.Name, "first"})
+							}
+						}
+						if o := an.ObjOf(info, x.X); o != nil && vars[o] != "" {
+							sites[vars[o]] = append(sites[vars[o]], site{x.Pos(), f.Name, "first"})
+						}
+					}
+				}
+				return true
+			})
+		}
+	}
+	n := 0
+	for _, k := range keys {
+		last, first := 0, 0
+		for _, s := range sites[k] {
+			n++
+			if s.form == "last" {
+				last++
+			} else {
+				first++
+			}
+		}
+		if last > 0 && first > 0 {
+			for _, s := range sites[k] {
+				if s.form == "first" {
+					c.Failf(rule, fmt.Sprintf("%s#meta(%s)[0]", s.fn, k), s.pos, "this reader takes the FIRST value of Meta key %q while %d other readers take the last one (Meta.Last): when the key is declared more than once (an override) the two disagree on the value in force", k, last)
+				}
+			}
+		} else {
+			c.Okf(rule, "meta("+k+")", "%d readers all select the value of the key the same way", last+first)
+		}
+	}
+	c.Floor(rule, n, 2, "readers of the given Meta keys")
+}
